@@ -151,10 +151,14 @@ def check_sum(ctx, rep, f):
     if b is None:
         rep.fail("R7", "Sum::sum", "anchor-lost:Sum", "impl Sum<T> for TwoFloat not found (reason=anchor-lost)")
         return
+    extra = ("<TwoFloat as num_traits::Zero>::zero", "<TwoFloat as core::default::Default>::default")
     try:
-        t = H.tree_of(f, b, "op", inline_extra=("<TwoFloat as num_traits::Zero>::zero", "<TwoFloat as core::default::Default>::default"))
+        t = H.tree_of(f, b, "op", inline_extra=extra)
     except vg.Unsupported as u:
-        rep.fail("R7", "Sum::sum", "unsupported", "cannot evaluate Sum::sum: %s" % u, where=H.where(b))
+        # an explicit loop `for item in iter { total = total + item }`: over-approximate the loop
+        ok, detail = sum_loop_form(f, b, extra)
+        rep.check(ok, "R7", "Sum::sum = fold(+0, Add::add)", "sum-not-fold", "Iterator::sum is not a left fold with + from zero (loop form): %s" % (detail,),
+                  where=H.where(b), detail=detail)
         return
     ok = False
     detail = None
@@ -180,6 +184,32 @@ def check_sum(ctx, rep, f):
             ok = init_ok and fn_ok and it_ok
     rep.check(ok, "R7", "Sum::sum = fold(+0, Add::add)", "sum-not-fold", "Iterator::sum is not a left fold with + from zero: %s" % (vg.show(t)[:400]),
               where=H.where(b), detail=detail)
+
+def sum_loop_form(f, b, extra):
+    """total = (0,0); loop { match iter.next() { Some(x) => total = total + x, None => break } }; total"""
+    ex = vg.Exec(f, vg.Policy(f, "op", inline_extra=extra, keep=H.primitive_idents(f), inline_private=True), loops="havoc")
+    try:
+        t = ex.run_body(b)
+    except vg.Unsupported as u:
+        return False, "cannot analyse: %s" % u
+    ents = [e for e in ex.loop_entries if e[0] == b.ident()]
+    if len(ents) != 1:
+        return False, "expected one loop"
+    entry = ents[0][2]
+    zero = vg.f64c(0.0)
+    totals = {hv: l for l, (before, hv) in entry.items() if tag(before) == "agg" and len(before[2]) == 2 and before[2][0] is zero and before[2][1] is zero and hv[2] == TF}
+    if len(totals) != 1:
+        return False, "no accumulator initialised to (+0, +0)"
+    (T, tl), = totals.items()
+    rets = []; backs = []
+    for path, leaf in vg.leaves(t):
+        if leaf[0] == "leaf":
+            rets.append(leaf[1])
+        elif leaf[0] == "backedge":
+            backs.append(dict(leaf[3]).get(tl))
+    ok_ret = rets and all(r is T for r in rets)
+    ok_back = backs and all(tag(v) == "call" and v[1].startswith("core::ops::Add::add<TwoFloat,T>") and v[2] is T and "next" in vg.show(v[3]) for v in backs)
+    return bool(ok_ret and ok_back), {"returns": [vg.show(r)[:80] for r in rets], "iteration": [vg.show(v)[:160] for v in backs]}
 
 # ------------------------------------------------------------------ wrappers (R13) / assign (R14)
 
